@@ -1,6 +1,7 @@
 package pg
 
 import (
+	"net/http"
 	"bufio"
 	"encoding/json"
 	"fmt"
@@ -95,7 +96,11 @@ func (w *World) observe(bt *Built) obs {
 		return o
 	}
 	o.ctype = resp.Header.Get("Content-Type")
-	ct := strings.ToLower(o.ctype)
+	if o.ctype == "" && resp.Body != "" {
+		// no type announced: net/http's server (and a browser) decide from the first bytes
+		o.ctype = "sniffed: " + http.DetectContentType([]byte(resp.Body))
+	}
+	ct := strings.TrimPrefix(strings.ToLower(o.ctype), "sniffed: ")
 	trim := strings.TrimLeft(resp.Body, " \t\r\n")
 	switch {
 	case strings.Contains(resp.Body, world.Marker):
